@@ -24,7 +24,9 @@ open IpcHub.Pull IpcHub.PullSpec
     disconnect, connect's dial timeout, the built-in NetTimeout / heart-beat values (the harness shortens
     them through the verif override; a read deadline is only set when NetTimeout > 0), the factory, and
     the not-found answers of the requesters, and media.Unregist reaching `s.Close()` whatever the registry
-    holds under the path (no return before it: `c20_pull_end_closes_stream`). -/
+    holds under the path (no return before it: `c20_pull_end_closes_stream`), and the Session header of EVERY
+    response requestWithResponse receives — the first and the answers to the authenticated repetitions —
+    being stored in `c.rsession` (what the model's `requestWithResponse` does: `c20_session_carried_partial`). -/
 theorem c20_source_facts :
     IpcHub.Gen.pullFactsUnknown = [] ∧
     IpcHub.Gen.openCalls = ["c.connect", "c.requestHandshake", "c.requestSDP", "c.requestSetup", "c.requestPlay"] ∧
@@ -70,7 +72,8 @@ theorem c20_source_facts :
     IpcHub.Gen.describeNotFound = ["stream == nil", "not-found", "return"] ∧
     IpcHub.Gen.playNotFound = ["stream == nil", "not-found", "return"] ∧
     IpcHub.Gen.httpFlvNotFound = ["stream == nil", "not-found", "return"] ∧
-    IpcHub.Gen.unregistClosesAlways = true := by
+    IpcHub.Gen.unregistClosesAlways = true ∧
+    IpcHub.Gen.rwrSessionSaves = ["recv", "save", "recv", "save", "recv", "save"] := by
   decide
 
 /-- the regenerated facts are the ones the property needs -/
@@ -236,6 +239,22 @@ theorem c20_dual_pulls_satisfy_spec (sc : IpcHub.PullDual.Scn) :
     IpcHub.PullDualSpec.verdict sc s.1 s.2.1 s.2.2 false = .ok := by
   obtain ⟨lc, wc, keep, lf, h1, h2⟩ := sc
   cases lc <;> cases wc <;> cases keep <;> cases lf <;> cases h1 <;> cases h2 <;> decide
+
+/-- The session id survives the authentication (finite table, hence `_partial`): for a camera that accepts the
+    route's credentials and behaves per RFC 2326 — every step answered with success, the session id handed
+    out from the first SETUP on — that puts a valid Digest or Basic challenge in front of ANY subset of the
+    steps (OPTIONS, DESCRIBE, each SETUP, PLAY; one or two tracks), the model of the current source ends with
+    a stream, and every request after an answer that carried the session id names it (so a camera that
+    answers 454 Session Not Found to a request without it never has to); the camera's script is used up
+    exactly (no request beyond the challenged ones and their authenticated repetitions). -/
+theorem c20_session_carried_partial :
+    ∀ ch ∈ [Chal.digestOk, Chal.basicOk],
+    ∀ sdp ∈ [Sdp.tracks true false false, Sdp.tracks false true false, Sdp.tracks true true false, Sdp.tracks true true true],
+    ∀ mask ∈ masks (3 + tracksOf sdp),
+      let r := openPull genFacts { hasUser := true, listens := true, urlPath := true, sdp := sdp } (rfcScript ch mask)
+      r.outcome = .stream ∧ r.rest = [] ∧
+      sessionCarried (rfcScript ch mask) (r.reqs.map (·.session.isSome)) = true := by
+  decide
 
 /-- Why the fact is needed (seeded change C20d / C03d): with an Unregist that returns early when the
     stream is not the registered one, a pulled stream that was replaced while it had a consumer stays
